@@ -170,6 +170,9 @@ FLOAT_HUGE = Palette("float/1e308", "float", [-1e308, -1.0, 1.0, 1e308], na=math
 INT_SMALL = Palette("int/small", "int", [-3, 0, 7, 9], na=None, full_dtype=float)  # NA makes it float
 # 2**53 and 2**53 + 1 are distinct integers that collapse to one float64; -2**63 is the value negation cannot handle
 INT_BIG = Palette("int/2^63", "int", [-2**63, 2**53, 2**53 + 1, 2**63 - 1], has_na=False, full_dtype=int)
+# values whose Python hashes collide pairwise: hash(-1) == hash(-2), hash(0) == hash(2**61 - 1), hash(inf) == 314159
+INT_HASH = Palette("int/hash-collide", "int", [-2, -1, 0, 2**61 - 1], has_na=False, full_dtype=int)
+FLOAT_HASH = Palette("float/hash-collide", "float", [-math.inf, -314159.0, 314159.0, math.inf], na=math.nan, full_dtype=float)
 UINT8 = Palette("uint8", "int", [0, 1, 200, 255], has_na=False, dtype="uint8", as_array=True)
 STR_SHORT = Palette("str/short", "str", ["A", "a", "ab", "é"], na="", full_dtype=str)
 STR_LONG = Palette("str/long", "str", [LONG + "A", LONG + "a", LONG + "ab", LONG + "é"], na="", full_dtype=str)
@@ -188,7 +191,7 @@ TIMEDELTA = Palette("timedelta", "timedelta",
 BYTES = Palette("bytes", "bytes", [b"A", b"a", b"ab", b"b"], has_na=False, full_dtype="S2")
 OBJ_INT = Palette("obj/int", "obj", [1, 2, 3, 4], na=None, dtype=object)
 
-ALL = [FLOAT_INF, FLOAT_BIG, FLOAT_HUGE, INT_SMALL, INT_BIG, UINT8, STR_SHORT, STR_LONG, STR_MIXED, STR_FIXED,
+ALL = [FLOAT_INF, FLOAT_BIG, FLOAT_HUGE, FLOAT_HASH, INT_SMALL, INT_BIG, INT_HASH, UINT8, STR_SHORT, STR_LONG, STR_MIXED, STR_FIXED,
        STR_ASTRAL, BOOL, DATE, DATETIME, TIMEDELTA, BYTES, OBJ_INT]
 BY_NAME = {p.name: p for p in ALL + [BOOL_OBJ]}
 
